@@ -122,6 +122,21 @@ def check_ctor(ctx, c, im, mr):
         ctx.oracle_fail("rotation_ctor", c, f"operator differs from the requested one by {d:.3g}", eq)
 
 
+def spell(ops):
+    """the same operand list with each operand written as an int, a Qubit or a numpy integer — the pattern is a
+    function of the list (so a case replays), and all three spellings of every position occur over the run"""
+    import zlib
+
+    from opensquirrel.ir import Qubit
+
+    h = zlib.crc32(repr(list(ops)).encode())
+    out = []
+    for i, o in enumerate(ops):
+        k = (h >> (2 * i)) % 3
+        out.append(o if k == 0 else (Qubit(o) if k == 1 else np.int64(o)))
+    return out
+
+
 def build_matrix_gate(case):
     """-> ("ok" | "err", model request) for a matrix gate on the case's operand list"""
     from opensquirrel.ir import MatrixGate
@@ -130,7 +145,7 @@ def build_matrix_gate(case):
     dim = 1 << len(ops) if case["shape_ok"] else (1 << len(ops)) + 1
     m = np.eye(max(dim, 1))
     try:
-        MatrixGate(m, ops)
+        MatrixGate(m, spell(ops))
         st = "ok"
     except ValueError:
         st = "err"
@@ -151,14 +166,15 @@ def build_controlled_gate(case):
     from opensquirrel.ir import BlochSphereRotation, ControlledGate
 
     c, tq = case["control"], case["targets"]
-    g = BlochSphereRotation(tq[-1], (1, 0, 0), 1.0)
-    for cc in reversed(tq[:-1]):
+    sp = spell([c, *tq])
+    g = BlochSphereRotation(sp[-1], (1, 0, 0), 1.0)
+    for cc in reversed(sp[1:-1]):
         try:
             g = ControlledGate(cc, g)
         except ValueError:
             return None
     try:
-        ControlledGate(c, g)
+        ControlledGate(sp[0], g)
         st = "ok"
     except ValueError:
         st = "err"
